@@ -1043,8 +1043,12 @@ walk_descents(cholmod_sparse *AtA_F,
 		/* Wait for threads to finish calculations */
 		int done = false;
 		pthread_mutex_lock(&mutex);
-		while (!done) {
-			pthread_cond_wait(&cv, &mutex);
+		while (1) {
+			/*
+			 * Check before waiting: the workers may all have
+			 * reported back before we re-acquired the mutex, in
+			 * which case nobody would ever wake us up.
+			 */
 			done = true;
 			for (j = 0; j < n_threads; j++) {
 				if (i*n_threads + j >= n_alpha)
@@ -1052,6 +1056,9 @@ walk_descents(cholmod_sparse *AtA_F,
 				if (descent_trials[j].state != WAIT)
 					done = false;
 			}
+			if (done)
+				break;
+			pthread_cond_wait(&cv, &mutex);
 		}
 		pthread_mutex_unlock(&mutex);
 
